@@ -1,6 +1,6 @@
 """Which units decide which property (DESIGN.md sections 1, 5)."""
 
-VERUS_UNITS = ['U-FMT', 'U-REACH', 'U-COMPACTAS', 'U-SANITY', 'U-RESOLVE', 'U-CONTAINS', 'U-CALLS', 'U-DESCR', 'U-DERIVES', 'U-MIXED', 'U-BUILDERS', 'U-SUBST', 'U-VALIDATE', 'U-FLATTEN', 'U-PATHS', 'U-TYPEIR', 'U-TYEX']
+VERUS_UNITS = ['U-FMT', 'U-REACH', 'U-COMPACTAS', 'U-SANITY', 'U-RESOLVE', 'U-CONTAINS', 'U-CALLS', 'U-DESCR', 'U-DERIVES', 'U-MIXED', 'U-BUILDERS', 'U-SUBST', 'U-VALIDATE', 'U-FLATTEN', 'U-PATHS', 'U-TYPEIR', 'U-TYEX', 'U-SIMILAR']
 
 PROPS = {
     'C15': {
@@ -86,15 +86,16 @@ PROPS = {
     },
     'C11': {
         'level': 'proof',
-        'verus': ['U-CONTAINS', 'U-VALIDATE'],
+        'verus': ['U-CONTAINS', 'U-VALIDATE', 'U-SIMILAR'],
         'kani': ['contains_type_path_catalogue', 'contains_type_path_catalogue2', 'contains_type_path_n1'],
         'trusted_base': ['Verus 0.2026.09.13, Z3, rustc 1.98.1'],
         'assumptions': [
             'ASSUMED std contracts: Vec<T> == [U] (length + pairwise), String == String (contents), slice.iter().any(f) (exists) -- vx/prelude/std_any_eq.rs',
+            'ASSUMED std contracts (vx/prelude/similar_shim.rs, U-SIMILAR): Option::filter, slice iter + filter_map + collect = the Some-results in order, `&String == &String` as `*a == *b`; scale-info Path::ident = clone of the last segment',
             'ASSUMED std contracts (vx/prelude/validate_shim.rs): HashMap::iter() yields every entry, chain() concatenates, next() walks front to back; iter_mut().find(f) = first entry on which f holds (as &mut); HashSet::extend(s.iter().cloned()) = union, is_empty = no element, clone = identity; derived Default of SettingsValidationError = three empty vectors; syn::Path == is equality of the opaque values; path_segments / path_segments_to_syn_path opaque (panics of the latter not covered); syn::TypePath modelled by its `path` field',
         ],
         'not_covered': [
-            'similar_type_paths_in_registry (third sentence of C11: inspects syn::Path, filter_map / collect)',
+            'similar_type_paths_in_registry: how the query syn::Path is turned into segment strings and how a syn::Path is built from a registry path (parse_quote!; opaque calls named by uninterpreted functions); panics of syn::parse_str on a registry path segment that is not an identifier',
             'panics inside path_segments_to_syn_path (empty or non-identifier substitute key)',
         ],
     },
